@@ -241,6 +241,19 @@ CLAIMED['C18'] = dict(
          'collect modelled over bounded sequences, Z3.',
     ref='§4 C18')
 
+CLAIMED['C15'] = dict(
+    text='Partial: decides with Z3 over the real MIR only the size-limit kernels of the front end, not its totality over arbitrary text. '
+         'C15.K1 Compiler::emit_byte for an instruction on any source line never panics and records exact 1-based lines while they fit '
+         'the u16 line table; peephole_compile (optimise, stack analysis, label resolution, encoding, packaging; each stage summarised '
+         'by an arbitrary result) answers with a function or diagnostics for any number of jump labels and has no panicking path of '
+         'its own; the capture limit is exercised in C02.K2. Found and fixed F13 (line 65536 overflowed the line number) and F12 '
+         '(todo!() for more than 65535 labels). Scanner / parser / resolver totality over every Unicode string, recursion depth and '
+         'the interactive prompt surviving diagnostics are NOT decided: Kani cannot build the scanner (compiler ICE on '
+         'Scanner::identifier_type) and a character-level encoding for mirsym is not built yet.',
+    note='Trusted: rustc MIR printer, mirsym, stage summaries (peephole_optimize C12, apply_stack_effects C04/C06, encoder C06), Z3. '
+         'Debug-profile MIR (overflow checks on); the release build wraps where the debug build panics.',
+    ref='§4 C15')
+
 NOT_APPLICABLE = {
     'C08': 'global liveness of the fiber scheduler needs the running Vm (DESIGN.md §6); no bounded symbolic encoding of the real scheduler is within reach',
 }
